@@ -31,6 +31,13 @@ def generate():
     meta.append(m)
     write_if_changed(f"{DST}/client_addr.rs", "// GENERATED -- do not edit\nuse crate::error;\n#[derive(Debug, Clone, Copy, PartialEq, Eq)]\npub struct XorName(pub [u8; 32]);\nimpl AsRef<[u8]> for XorName { fn as_ref(&self) -> &[u8] { &self.0 } }\n#[derive(Debug)]\npub enum DataError { InvalidHexString, InvalidXorName }\n\n"
                      + e + "\n\n#[path = \"../h_client_addr.rs\"]\nmod harness;\n")
+    # ---- quorum value (C05) ----
+    f, m = extract_items("ant-networking/src/lib.rs", [("fn", "get_quorum_value")])
+    g, m2 = extract_items("ant-protocol/src/lib.rs", [("const", "CLOSE_GROUP_SIZE")])
+    h2, m3 = extract_items("ant-networking/src/lib.rs", [("fn", "close_group_majority")])
+    meta += [m, m2, m3]
+    write_if_changed(f"{DST}/quorum.rs", "// GENERATED -- do not edit\nuse std::num::NonZeroUsize;\n/// same shape as libp2p::kad::Quorum\n#[derive(Debug, Clone, Copy, PartialEq, Eq)]\npub enum Quorum { One, Majority, All, N(NonZeroUsize) }\n\n"
+                     + g + "\n\n" + h2 + "\n\n" + f + "\n\n#[path = \"../h_quorum.rs\"]\nmod harness;\n")
     return {"transplanted": meta}
 
 
